@@ -9,7 +9,7 @@ from . import tok_common
 
 MANIFEST = {
     "text": "Structural conditions under which any tokenizer state can be left on 'no more input' and re-entered without loss, decided on the flattened transition tables: no effect precedes a possible suspension (every state and char-ref step), look-ahead text survives (temp_buf provably empty where eat() starts), a pending CR is resolved only where the next character is known, the BOM flag is cleared after the first character, a script pause happens on the consuming '>' transition with the state already reset; plus equality of all helper normal forms with the reviewed reference. The pending 'ignore LF' flag is consumed on every path that saw it, also when input runs out while skipping (R03.3); a char-ref function that finds the queue empty answers Stuck without a state change (R03.1); buffered table text is foster-parented iff some pending token has a non-whitespace character (R03.7).",
-    "note": 'Decides R03.1-R03.7 (necessary conditions). Not decided: BufferQueue arithmetic under the primitives (C13), equality of the final tree (needs C02). Trusted: flattening engine, rustc expansion. Also decided: an eat() that needs more input stashes the whole queue in order (R03.2). Also decided: whitespace-sensitive modes split unsplit character tokens first (R03.9). Round 6: runs of characters are only appended (R03.10), whitespace tests are per-character (R03.11), drivers feed until done (R03.12). Round 7: split labels only the run (R03.13), run() passes step results on unchanged (R03.14).',
+    "note": 'Decides R03.1-R03.7 (necessary conditions). Not decided: BufferQueue arithmetic under the primitives (C13), equality of the final tree (needs C02). Trusted: flattening engine, rustc expansion. Also decided: an eat() that needs more input stashes the whole queue in order (R03.2). Also decided: whitespace-sensitive modes split unsplit character tokens first (R03.9). Round 6: runs of characters are only appended (R03.10), whitespace tests are per-character (R03.11), drivers feed until done (R03.12). Round 7: split labels only the run (R03.13), run() passes step results on unchanged (R03.14). Round 8: end() runs the machine before eof_step (R03.15), input stream preprocessing equals its transcription cell by cell (R03.16), feed() answers what run() answered and drops at most one BOM character (R03.17).',
     "technique": 'must-pass-through / dataflow rules over decision-tree-flattened transition tables',
 }
 LEVEL = "other"
